@@ -961,6 +961,11 @@ def random_desc(rng):
         d["overflow"] = rng.choice(["extras", "overflow", rng.choice(others)])
     if rng.random() < 0.25:
         d["key"] = rng.choice(names + [rng.choice(others)])
+    if d["key"] and d["key"] == d["overflow"]:
+        # key == init_overflow_attr: the (always generated) __spec_class_init__ signature would name the
+        # parameter twice (inspect.Signature -> ValueError "duplicate parameter name"); that is a rejected
+        # misconfiguration of the constructor, not a helper-name collision, and neither model nor oracle describe it
+        d["key"] = None
     return d
 
 
